@@ -186,6 +186,13 @@ NothingStranded ==
                         Ev(s, n) \in done \cup failed \cup dropped
 \* C04 in the concurrent setting: an event removed by clear() never runs later
 DroppedNeverRun == \A i \in DOMAIN started : started[i] \notin dropped
+\* Dispatch refines its counter abstraction DispatchCore (queue |-> its length, "begin" |-> "run"), whose invariant is
+\* proved inductive by Apalache for an unbounded number of events (threads mode; variants both / pinned)
+Core == INSTANCE DispatchCore WITH pc <- [s \in Senders |-> IF pc[s] = "begin" THEN "run" ELSE pc[s]],
+                                   qlen <- Len(queue), locked <- locked, exc <- exc,
+                                   SecondLook <- (Variant = "both")
+RefinesCore == Core!CoreSpec
+
 \* the lock is held exactly by the one sender inside the loop
 LockOwner == Cardinality({s \in Senders : pc[s] \in {"chk", "pop", "begin", "run", "clr", "rel"}}) = (IF locked THEN 1 ELSE 0)
 =============================================================================
